@@ -271,3 +271,27 @@ def repr_enum_unit_beside_payload_in_bulk(subject):
         if x["k"] == "arr" and any_node(x, _enum_unit_and_payload) and all(y["k"] in ("arr", "enum", "var", "p") for y in walk(x)):
             return True
     return False
+
+@predicate
+def contains_result(subject):
+    return any_node(subject["t"], lambda x: x["k"] == "res")
+
+@predicate
+def contains_socketaddr(subject):
+    return any_node(subject["t"], lambda x: x["k"] == "lib" and x["s"] == "SocketAddr")
+
+@predicate
+def contains_bitvec(subject):
+    return any_node(subject["t"], lambda x: x["k"] == "lib" and x["s"] in ("BitVec", "BitSet", "BitVec08", "BitSet08"))
+
+def _mentions_as_element(t, key):
+    """t's schema computation asks the recursion guard about `key` (key is the element type of a container inside t)"""
+    for x in walk(t):
+        if x["k"] in ("vec", "arr", "box", "map") and any(c == key for c in x["ts"]):
+            return True
+    return False
+
+@predicate
+def hashmap_value_contains_key_container(subject):
+    return any_node(subject["t"], lambda x: x["k"] == "map" and x["s"] in ("HashMap", "FxHashMap", "IndexMap")
+                    and _mentions_as_element(x["ts"][1], x["ts"][0]))
